@@ -482,6 +482,15 @@ impl<'a> G<'a> {
             let w = self.pick(&["a", "", "x1"]); self.p(w); self.mark(";", MK::Masked); if self.u.coin(1, 2) { self.p("b"); }
             return false;
         }
+        if !nonword && self.u.coin(1, 16) {
+            // an operand that starts with a literal '%' (no name, no quotable operator after it): it is text, and the
+            // delimiter that ends the operand (a top-level comma, ')', an operator) must still be seen after it
+            self.feat("literal-percent-starts-operand");
+            self.p("%");
+            if self.u.coin(1, 2) { if self.u.coin(1, 2) { self.p(" "); } let dg = self.pick(&["5", "1.5", "20", "0"]); self.mark(dg, MK::NotInt); }
+            else { self.p(" "); let w = self.pick(&["b", "x1", "one", "rate"]); self.mark(w, MK::Word); }
+            return false;
+        }
         match k {
             0 | 1 => { let s = self.pick(&["0", "1", "42", "100", "0ffx", "007", "10", "00", "1Ax", "0FFX", "999999999"]); self.mark(s, MK::IntOperand); self.tp(); }
             2 => {
